@@ -252,3 +252,4 @@ def execute(run):
         scan_global_state(run)
     kani.run_for(run)
     native.run_for(run)
+    run.resolve_standins()
